@@ -158,6 +158,7 @@ func (sc *Scenario) run(pattern []bool, checkFix bool) *Exec {
 	smtpx.SetSender(okSender{})
 	defer httpx.SetRequestor(httpx.DefaultRequestor)
 
+	resetSources(sc.Seed, 0) // also covers what the trigger builder draws (triggered_on, UUIDs)
 	sa, err := sc.LoadAssets()
 	if err != nil {
 		ex.Harness = "assets: " + err.Error()
@@ -171,7 +172,6 @@ func (sc *Scenario) run(pattern []bool, checkFix bool) *Exec {
 	}
 	var s flows.Session
 	var sp flows.Sprint
-	resetSources(sc.Seed, 0)
 	p, hung := guarded(func() { s, sp, err = eng.NewSession(sa, trig) })
 	first := observe(s, sp, err, p, hung)
 	ex.Calls = append(ex.Calls, first)
@@ -222,6 +222,7 @@ func (sc *Scenario) run(pattern []bool, checkFix bool) *Exec {
 				s, sa = s2, sa2
 			}
 		}
+		resetSources(sc.Seed, i+1) // before the resume is built (resumed_on) and applied
 		res, rerr := sc.MakeResume(sa, i)
 		if rerr != nil {
 			ex.Harness = "resume: " + rerr.Error()
@@ -229,7 +230,6 @@ func (sc *Scenario) run(pattern []bool, checkFix bool) *Exec {
 		}
 		var sp2 flows.Sprint
 		var err2 error
-		resetSources(sc.Seed, i+1)
 		p, hung := guarded(func() { sp2, err2 = s.Resume(res) })
 		o := observe(s, sp2, err2, p, hung)
 		ex.Calls = append(ex.Calls, o)
